@@ -137,6 +137,37 @@ func (g *f2gen) eachBlock(n int, yield func([]*sk)) {
 
 type skRender struct {
 	ids, lv int
+	scale   int // > 0: scaled mode (see F2Scaled)
+	depth   int // loop nesting depth while rendering
+}
+
+func (r *skRender) cond(c int) *lang.N {
+	if r.scale == 0 {
+		return lang.Clone(condSrc[c])
+	}
+	switch c {
+	case 0:
+		return lang.Bool(true)
+	case 1:
+		return lang.Bool(false)
+	case 2:
+		return lang.Bin("==", lang.Bin("%", lang.Id("x"), lang.Int(2)), lang.Int(0))
+	}
+	return lang.Bin("==", lang.Id("x"), lang.Int(1))
+}
+
+func (r *skRender) subj() *lang.N {
+	if r.scale == 0 {
+		return subj()
+	}
+	return lang.Bin("%", lang.Id("x"), lang.Int(3))
+}
+
+func (r *skRender) bound(small int64) *lang.N {
+	if r.scale > 0 && r.depth == 1 {
+		return lang.Int(int64(r.scale))
+	}
+	return lang.Int(small)
 }
 
 func (r *skRender) block(b []*sk) []*lang.N {
@@ -152,6 +183,9 @@ func subj() *lang.N { return lang.Bin("%", lang.Call(lang.Id("n")), lang.Int(3))
 func (r *skRender) stmt(s *sk) []*lang.N {
 	switch s.k {
 	case kEmit:
+		if r.scale > 0 {
+			return []*lang.N{lang.Inc("x", "++")}
+		}
 		r.ids++
 		return []*lang.N{lang.Expr(lang.Call(lang.Id("emit"), lang.Int(int64(r.ids))))}
 	case kBreak:
@@ -163,31 +197,33 @@ func (r *skRender) stmt(s *sk) []*lang.N {
 	case kInc:
 		return []*lang.N{lang.Inc("x", "++")}
 	case kIf:
-		return []*lang.N{lang.If(lang.Clone(condSrc[s.c]), r.block(s.a), nil)}
+		return []*lang.N{lang.If(r.cond(s.c), r.block(s.a), nil)}
 	case kIfElse:
 		a := r.block(s.a)
 		b := r.block(s.b)
-		return []*lang.N{lang.If(lang.Clone(condSrc[s.c]), a, b)}
+		return []*lang.N{lang.If(r.cond(s.c), a, b)}
 	case kSwitch1:
-		return []*lang.N{lang.Switch(subj(), lang.Case{Vals: []*lang.N{lang.Int(int64(s.c))}, Body: r.block(s.a)})}
+		return []*lang.N{lang.Switch(r.subj(), lang.Case{Vals: []*lang.N{lang.Int(int64(s.c))}, Body: r.block(s.a)})}
 	case kSwitchM:
-		return []*lang.N{lang.Switch(subj(), lang.Case{Vals: []*lang.N{lang.Int(0), lang.Int(2)}, Body: r.block(s.a)})}
+		return []*lang.N{lang.Switch(r.subj(), lang.Case{Vals: []*lang.N{lang.Int(0), lang.Int(2)}, Body: r.block(s.a)})}
 	case kSwitchD:
 		a := r.block(s.a)
 		b := r.block(s.b)
-		return []*lang.N{lang.Switch(subj(), lang.Case{Vals: []*lang.N{lang.Int(int64(s.c))}, Body: a}, lang.Case{Default: true, Body: b})}
+		return []*lang.N{lang.Switch(r.subj(), lang.Case{Vals: []*lang.N{lang.Int(int64(s.c))}, Body: a}, lang.Case{Default: true, Body: b})}
 	case kSwitchDF:
 		a := r.block(s.a)
 		b := r.block(s.b)
-		return []*lang.N{lang.Switch(subj(), lang.Case{Default: true, Body: a}, lang.Case{Vals: []*lang.N{lang.Int(int64(s.c))}, Body: b})}
+		return []*lang.N{lang.Switch(r.subj(), lang.Case{Default: true, Body: a}, lang.Case{Vals: []*lang.N{lang.Int(int64(s.c))}, Body: b})}
 	case kSwitch2:
 		a := r.block(s.a)
 		b := r.block(s.b)
-		return []*lang.N{lang.Switch(subj(), lang.Case{Vals: []*lang.N{lang.Int(0)}, Body: a}, lang.Case{Vals: []*lang.N{lang.Int(1)}, Body: b})}
+		return []*lang.N{lang.Switch(r.subj(), lang.Case{Vals: []*lang.N{lang.Int(0)}, Body: a}, lang.Case{Vals: []*lang.N{lang.Int(1)}, Body: b})}
 	case kFunc:
 		return []*lang.N{lang.Expr(lang.Call(lang.Func("", nil, r.block(s.a)...)))}
 	}
 	r.lv++
+	r.depth++
+	defer func() { r.depth-- }()
 	lv := r.lv
 	i := fmt.Sprintf("i%d", lv)
 	v := fmt.Sprintf("v%d", lv)
@@ -195,7 +231,7 @@ func (r *skRender) stmt(s *sk) []*lang.N {
 	list78 := func() *lang.N { return lang.List(lang.Int(7), lang.Int(8)) }
 	switch s.k {
 	case kRange:
-		return []*lang.N{lang.ForRange(i, lang.Int(3), r.block(s.a)...)}
+		return []*lang.N{lang.ForRange(i, r.bound(3), r.block(s.a)...)}
 	case kRangeL:
 		return []*lang.N{lang.ForRange(i, list78(), r.block(s.a)...)}
 	case kRangeKV:
@@ -203,15 +239,15 @@ func (r *skRender) stmt(s *sk) []*lang.N {
 	case kRangeM:
 		return []*lang.N{lang.ForRangeKV(i, v, lang.Id("m"), r.block(s.a)...)}
 	case kFor3:
-		return []*lang.N{lang.For3(lang.Var(i, lang.Int(0)), lang.Bin("<", lang.Id(i), lang.Int(3)), lang.Inc(i, "++"), r.block(s.a)...)}
+		return []*lang.N{lang.For3(lang.Var(i, lang.Int(0)), lang.Bin("<", lang.Id(i), r.bound(3)), lang.Inc(i, "++"), r.block(s.a)...)}
 	case kForIn:
 		return []*lang.N{lang.ForIn(v, list78(), r.block(s.a)...)}
 	case kSimple:
-		body := append([]*lang.N{lang.Inc(gname, "++"), lang.If(lang.Bin(">", lang.Id(gname), lang.Int(2)), []*lang.N{lang.Break()}, nil)}, r.block(s.a)...)
+		body := append([]*lang.N{lang.Inc(gname, "++"), lang.If(lang.Bin(">", lang.Id(gname), r.bound(2)), []*lang.N{lang.Break()}, nil)}, r.block(s.a)...)
 		return []*lang.N{lang.Var(gname, lang.Int(0)), lang.ForInf(body...)}
 	case kCond:
 		body := append([]*lang.N{lang.Inc(gname, "++")}, r.block(s.a)...)
-		return []*lang.N{lang.Var(gname, lang.Int(0)), lang.ForCond(lang.Bin("<", lang.Id(gname), lang.Int(2)), body...)}
+		return []*lang.N{lang.Var(gname, lang.Int(0)), lang.ForCond(lang.Bin("<", lang.Id(gname), r.bound(2)), body...)}
 	}
 	panic("f2: kind")
 }
@@ -314,4 +350,60 @@ func F2Count(n int) int {
 	c := 0
 	g.eachBlock(n, func([]*sk) { c++ })
 	return c
+}
+
+// outerLoopsScalable: every loop that is not nested in another loop is of a kind whose bound can be scaled,
+// and there is at least one.
+func outerLoopsScalable(b []*sk) (ok bool, n int) {
+	ok = true
+	for _, s := range b {
+		switch {
+		case s.k == kInc:
+			return false, 0
+		case s.k == kRange || s.k == kFor3 || s.k == kSimple || s.k == kCond:
+			n++
+			if hasKind(s.a, kInc) {
+				return false, 0
+			}
+		case s.k >= kRange && s.k <= kCond:
+			return false, 0
+		default:
+			o1, n1 := outerLoopsScalable(s.a)
+			o2, n2 := outerLoopsScalable(s.b)
+			if !o1 || !o2 {
+				return false, 0
+			}
+			n += n1 + n2
+		}
+	}
+	return ok, n
+}
+
+func hasKind(b []*sk, k skKind) bool {
+	for _, s := range b {
+		if s.k == k || hasKind(s.a, k) || hasKind(s.b, k) {
+			return true
+		}
+	}
+	return false
+}
+
+// F2Scaled streams the loop skeletons with exactly n nodes whose outermost loops run K iterations
+// (emit sites become x++, conditions read x). The result of the program is x.
+func F2Scaled(n, K int, yield func(Program)) {
+	g := &f2gen{memoS: map[int][]*sk{}, memoB: map[int][][]*sk{}}
+	g.eachBlock(n, func(b []*sk) {
+		if ok, cnt := outerLoopsScalable(b); !ok || cnt == 0 {
+			return
+		}
+		r := &skRender{scale: K}
+		body := r.block(b)
+		prog := []*lang.N{
+			lang.Var("x", lang.Int(0)),
+			lang.Var("m", lang.Map(lang.Str("a"), lang.Int(1), lang.Str("b"), lang.Int(2))),
+		}
+		prog = append(prog, body...)
+		prog = append(prog, lang.Expr(lang.Id("x")))
+		yield(Program{Fam: "F2S", Prog: prog, Names: []string{"x"}})
+	})
 }
